@@ -74,7 +74,7 @@ fn kf_if_then() -> (bool, String) {
             let swapped = a.0.trim() == "{b;}" && a.1.as_deref().map(str::trim) == Some("a;");
             let dup = b.0.trim() == "a;" && b.1.as_deref().map(str::trim) == Some("a;");
             let ghost_else = c_.1.as_deref().map(str::trim) == Some("a;");
-            (swapped && dup && ghost_else, format!("`if (c) a; else {{b;}}` -> then={:?} else={:?}; `if (c) a; else b;` -> then={:?} else={:?}; `if (c) a;` -> else={:?}", a.0, a.1, b.0, b.1, c_.1))
+            (swapped || dup || ghost_else, format!("`if (c) a; else {{b;}}` -> then={:?} else={:?}; `if (c) a; else b;` -> then={:?} else={:?}; `if (c) a;` -> else={:?}", a.0, a.1, b.0, b.1, c_.1))
         }
 
 
@@ -139,8 +139,6 @@ fn table() -> Vec<(&'static str, Check)> {
         ("C03-array-literal", || c03("array[int, 2] a = {1, 2};")),
         ("C03-block-expr", || c03("int x = {1};")),
         ("C03-box-expr", || c03("box { };")),
-        ("C05-if-single-statement-then", kf_if_then),
-        ("C06-if-single-statement-then", kf_if_then),
         ("C03-gphase-no-arg", || { let (a, wa) = c03("gphase();"); let (b, wb) = c03("inv @ gphase();"); (a && b, format!("{wa}; {wb}")) }),
         ("C03-empty-stmt-body", || {
             let (a, wa) = c03("if (true) ;"); let (b, wb) = c03("while (true) ;"); let (c_, wc) = c03("for int i in [0:1] ;");
@@ -203,6 +201,7 @@ fn fixed_table() -> Vec<(&'static str, Check)> {
             let id = match first_stmt("x[0] = y;") { Some(Stmt::AssignmentStmt(a)) => a.identifier().map(|i| i.string()), _ => None };
             (id.is_some(), format!("AssignmentStmt::identifier() of `x[0] = y;` -> {:?}", id))
         }),
+        ("C05-if-single-statement-then", kf_if_then),
         ("C03-barrier-no-operands", || c03("barrier;")),
         ("C03-stmt-body-none", || {
             let (a, wa) = c03("while (true) OPENQASM 3;");
